@@ -42,6 +42,7 @@ Definition trims (s : st) : bool :=
 Section Spec.
 Variable cw : Z -> Z.
 Variable upper : Z -> list Z.
+Variable lower : list Z -> list Z.
 
 (* the view with the cursor visible *)
 Definition look (s : st) : st := with_shiftv s true.
@@ -66,7 +67,7 @@ Definition ref_key (s : st) (k : key) (w : Z) (lay : layout) : st * result ret :
   let ins cs := (put s (ins_at t p cs) (p + zlen cs), Ok RHandled) in
   match k with
   | KText cs =>
-      match valid_char cw upper s cs with
+      match valid_char cw upper lower s cs with
       | Ok true => ins cs
       | Ok false => (s, Ok RUnhandled)
       | Err e => (s, Err e)
@@ -155,8 +156,8 @@ Definition num_ok (alpha : Z -> bool) (neg : bool) (t : list Z) : bool :=
   | c :: r => (alpha c || (neg && (c =? 45))) && forallb alpha r
   end.
 
-(* ASCII upper-casing and the alphabet of a NumEdit: the characters whose ASCII upper case is in
-   the [allowed] string *)
+(* ASCII upper-casing and the alphabet of a NumEdit: the characters of the [allowed] string and the
+   characters whose ASCII upper case is in it *)
 Definition ascii_upper (c : Z) : Z := if (97 <=? c) && (c <=? 122) then c - 32 else c.
-Definition num_alpha (allowed : list Z) (c : Z) : bool := memz (ascii_upper c) allowed.
+Definition num_alpha (allowed : list Z) (c : Z) : bool := memz c allowed || memz (ascii_upper c) allowed.
 Definition int_alpha (c : Z) : bool := (48 <=? c) && (c <=? 57).
